@@ -131,13 +131,16 @@ class BaseComponent(Manager):
         This method fires a :class:`~.events.Registered` event to inform
         other components in the tree about the new member.
         """
+        if parent is not self:
+            # (may refuse, see registerChild(): nothing has been changed then)
+            parent.registerChild(self)
+
         self.parent = parent
         self.root = parent.root
 
         # Make sure that structure is consistent before firing event
         # because event may be handled in a concurrent thread.
         if parent is not self:
-            parent.registerChild(self)
             self._updateRoot(parent.root)
             self.fire(registered(self, self.parent))
         else:
